@@ -5,6 +5,7 @@ escalations, step limits, and (rarely) asymmetric or non-reflexive topologies.
 
 Every random choice derives from the `random.Random` passed in.
 """
+import os
 from common import Scenario, Host, u
 
 
@@ -72,9 +73,12 @@ def rand_scenario(rng, max_hosts=5, big=False, like=None):
     sens = {}
     for a in rng.sample(addrs, rng.randint(1, min(3, len(addrs)))):
         sens[a] = rng.choice([1, 10, 100, 200, 0.5, 37.25]) if rng.random() < 0.8 else rng.choice([1, 2, 0.5])
-    if len(sens) >= 2 and rng.random() < 0.06:
+    big = len(sens) >= 2 and (rng.random() < 0.06 or bool(os.environ.get("VERIF_FORCE_BIG")))
+    if big:
         # values that are exact in the float32 tensor one by one but whose sum is not (2^24 + 1): anything that
-        # decides by an accumulated float32 total instead of looking at the hosts goes wrong here
+        # decides by an accumulated float32 total instead of looking at the hosts goes wrong here.  Costs are whole
+        # numbers in these scenarios, so that value - cost stays exact in float32 too (the implementation's own
+        # arithmetic on such values is float32; a reward of 16777214.5 is not representable - not modelled)
         ks = list(sens)
         sens[ks[0]], sens[ks[1]] = 16777216, 1
     fw = {}
@@ -104,7 +108,7 @@ def rand_scenario(rng, max_hosts=5, big=False, like=None):
     for i in range(rng.randint(1, 3)):
         exploits[f"e{i}"] = dict(service=rng.choice(svc_l), os=rng.choice(os_l + [None]),
                                  prob=rng.choice([0.0, 0.25, 0.5, 0.75, 1.0, 0.8, 0.3]),
-                                 cost=rng.choice([1, 1.5, 2, 0.5, 3]),
+                                 cost=rng.choice([1, 2, 3] if big else [1, 1.5, 2, 0.5, 3]),
                                  access=rng.choice([1, 2]))
     if rich:
         # make one public host exploitable from the internet, and most exploits likely to work
@@ -128,7 +132,7 @@ def rand_scenario(rng, max_hosts=5, big=False, like=None):
     for i in range(rng.randint(1 if rich else 0, 2)):
         privescs[f"pe{i}"] = dict(process=rng.choice(proc_l), os=rng.choice(os_l + [None]),
                                   prob=rng.choice([0.0, 0.5, 1.0, 1.0, 0.9]),
-                                  cost=rng.choice([1, 1.25, 2]),
+                                  cost=rng.choice([1, 2] if big else [1, 1.25, 2]),
                                   access=rng.choice([1, 2, 2]))
     if like is None and rng.random() < 0.3:
         # the order of the host configurations (= row order of the state tensor, order of the flat action list) is
